@@ -7,7 +7,7 @@ namespace PyDBML
 namespace C02
 open Lex Grammar Build
 
-inductive Flag where | pk | increment | unique | notNull
+inductive Flag where | pk | increment | unique | notNull | note (t : Str)
   deriving DecidableEq
 
 def Flag.text : Flag → Str
@@ -15,20 +15,32 @@ def Flag.text : Flag → Str
   | .increment => ['i', 'n', 'c', 'r', 'e', 'm', 'e', 'n', 't']
   | .unique => ['u', 'n', 'i', 'q', 'u', 'e']
   | .notNull => ['n', 'o', 't', ' ', 'n', 'u', 'l', 'l']
+  | .note t => 'n' :: 'o' :: 't' :: 'e' :: ':' :: ' ' :: '\'' :: (prepareTextForDbml t ++ ['\''])
+
+/-- what a settings item must satisfy: a note is one plain line without a triple quote -/
+def Flag.ok : Flag → Prop
+  | .note t => Plain t ∧ hasTriple t = false
+  | _ => True
 
 def Flag.setting : Flag → ColSetting
   | .pk => .pk
   | .increment => .increment
   | .unique => .unique
   | .notNull => .notNull true
+  | .note t => .note t
 
 theorem swc_ne2 (x y : Char) (r : Str) (s : String) (k1 k2 : Char) (ks : Str) (hs : s.toList = k1 :: k2 :: ks)
     (h : (pyUpper1 k2 == pyUpper1 y) = false) : startsWithCaseless (x :: y :: r) s.toList = false := by
   rw [hs]; simp [startsWithCaseless, h]
 
+theorem swc_ne4 (a b c d : Char) (r : Str) (s : String) (k1 k2 k3 k4 : Char) (ks : Str)
+    (hs : s.toList = k1 :: k2 :: k3 :: k4 :: ks) (h : (pyUpper1 k4 == pyUpper1 d) = false) :
+    startsWithCaseless (a :: b :: c :: d :: r) s.toList = false := by
+  rw [hs]; simp [startsWithCaseless, h]
+
 /-- one setting word, followed by a comma or the closing bracket -/
 theorem columnSetting_flag (c : Cur) (w : Flag) (x : Char) (rest : Str) (hn : (skipWs c).rest = w.text ++ x :: rest)
-    (hx : x = ',' ∨ x = ']') (hp : c.pastEnd = false) :
+    (hx : x = ',' ∨ x = ']') (hp : c.pastEnd = false) (hw : w.ok) :
     ∃ c', columnSetting c = .ok w.setting c' ∧ c'.rest = x :: rest ∧ c'.pastEnd = false := by
   have hxw : isWs x = false := by rcases hx with rfl | rfl <;> decide
   have hxn : x ≠ '\n' := by rcases hx with rfl | rfl <;> decide
@@ -89,6 +101,39 @@ theorem columnSetting_flag (c : Cur) (w : Flag) (x : Char) (rest : Str) (hn : (s
     refine ⟨c1, ?_, hr1, hp1⟩
     unfold columnSetting
     simp only [bind, pbind, hs0, alt, hk, after c1 hr1, pure, ppure, Flag.setting]
+  | note t =>
+    obtain ⟨ht, h3⟩ := hw
+    have h1 : C13.oneLine t = true := by
+      simp only [C13.oneLine, Bool.not_eq_true', List.any_eq_false, Bool.or_eq_true, decide_eq_true_eq, not_or]
+      intro ch hch
+      have := (ht ch hch).1
+      constructor <;> (rintro rfl; simp [isLineBreak] at this)
+    have hn' : (skipWs c).rest = ['n', 'o', 't', 'e', ':'] ++ ' ' :: '\'' :: (prepareTextForDbml t ++ '\'' :: x :: rest) := by
+      rw [hn]; simp [Flag.text]
+    have hN : Next c 'n' ('o' :: 't' :: 'e' :: ':' :: ' ' :: '\'' :: (prepareTextForDbml t ++ '\'' :: x :: rest)) := hn'
+    obtain ⟨q1, q2⟩ := quiet_of_next c 'n' _ hN (by decide) (by decide)
+    have hs0 := skipNl_stay c q1 q2
+    obtain ⟨c1, hk, hr1, hp1⟩ := clit_ok "note:" c ['n', 'o', 't', 'e', ':'] _ hn' (by decide)
+      (by simp [startsWithCaseless] <;> decide) hp
+    have hN1 : Next c1 '\'' (prepareTextForDbml t ++ '\'' :: x :: rest) :=
+      skipWs_rest_spaces c1 1 '\'' _ (by rw [hr1]; rfl) (by decide)
+    obtain ⟨q3, q4⟩ := quiet_of_next c1 '\'' _ hN1 (by decide) (by decide)
+    have hs1 := skipNl_stay c1 q3 q4
+    obtain ⟨c2, hsl, hr2, hp2⟩ := stringLiteral_ok c1 t (x :: rest) hN1 hp1 h1 h3
+      (Or.inr (by rcases hx with rfl | rfl <;> simp))
+    have hnote : noteRule c = .ok t c2 := by
+      unfold noteRule
+      simp only [bind, pbind, hk, cut, hs1, hsl]
+    refine ⟨c2, ?_, hr2, hp2⟩
+    unfold columnSetting
+    simp only [bind, pbind, hs0, alt,
+      clit_fail "not null" c _ _ hN (swc_ne4 'n' 'o' 't' 'e' _ "not null" 'n' 'o' 't' ' ' _ rfl (by decide)),
+      clit_fail "null" c _ _ hN (swc_ne2 'n' 'o' _ "null" 'n' 'u' _ rfl (by decide)),
+      clit_fail "primary key" c _ _ hN (swc_ne 'n' _ "primary key" 'p' _ rfl (by decide)),
+      clit_fail "pk" c _ _ hN (swc_ne 'n' _ "pk" 'p' _ rfl (by decide)),
+      clit_fail "unique" c _ _ hN (swc_ne 'n' _ "unique" 'u' _ rfl (by decide)),
+      clit_fail "increment" c _ _ hN (swc_ne 'n' _ "increment" 'i' _ rfl (by decide)),
+      hnote, after c2 hr2, pure, ppure, Flag.setting]
 
 /-! ### the settings list: `[w1, w2, …]` -/
 
@@ -101,7 +146,7 @@ theorem flag_text_head (w : Flag) : ∃ y r, w.text = y :: r ∧ isWs y = false 
   cases w <;> simp [Flag.text] <;> decide
 
 theorem many_flags (item : P ColSetting) (hitem : ∀ c c' s, columnSetting c = .ok s c' → item c = .ok s c')
-    (ws : List Flag) (post : Str) :
+    (ws : List Flag) (post : Str) (hws : ∀ w ∈ ws, w.ok) :
     ∀ (fuel : Nat) (c : Cur), ws.length < fuel → c.rest = moreFlags ws ++ ']' :: post → c.pastEnd = false →
       ∃ c', many (pbind (sym ",") fun _ => item) fuel c = .ok (ws.map Flag.setting) c'
         ∧ c'.rest = ']' :: post ∧ c'.pastEnd = false := by
@@ -128,8 +173,8 @@ theorem many_flags (item : P ColSetting) (hitem : ∀ c c' s, columnSetting c = 
     have hN1 : (skipWs c1).rest = w.text ++ x :: rest := by
       have := skipWs_rest_spaces c1 1 y (yr ++ (moreFlags r ++ ']' :: post)) (by rw [hr1, hy]; simp) hyw
       rw [this, hy, hrest]; simp
-    obtain ⟨c2, hset, hr2, hp2⟩ := columnSetting_flag c1 w x rest hN1 hx hp1
-    obtain ⟨c3, hm, hr3, hp3⟩ := ih f c2 (by simp at hf; omega) (by rw [hr2, hrest]) hp2
+    obtain ⟨c2, hset, hr2, hp2⟩ := columnSetting_flag c1 w x rest hN1 hx hp1 (hws w (by simp))
+    obtain ⟨c3, hm, hr3, hp3⟩ := ih (fun q hq => hws q (by simp [hq])) f c2 (by simp at hf; omega) (by rw [hr2, hrest]) hp2
     refine ⟨c3, ?_, hr3, hp3⟩
     have hlen : c2.rest.length ≠ c.rest.length := by
       rw [hr2, hc, ← hrest]; simp [moreFlags]; omega
@@ -148,7 +193,8 @@ theorem columnSetting_wp (c c' : Cur) (s : ColSetting) (h : columnSetting c = .o
 
 /-- `[w, ws…]` followed by a line break, in both grammars (with and without properties) -/
 theorem settings_ok (props : Bool) (c : Cur) (w : Flag) (ws : List Flag) (rest : Str)
-    (hn : (skipWs c).rest = '[' :: (w.text ++ moreFlags ws ++ ']' :: '\n' :: rest)) (hp : c.pastEnd = false) :
+    (hn : (skipWs c).rest = '[' :: (w.text ++ moreFlags ws ++ ']' :: '\n' :: rest)) (hp : c.pastEnd = false)
+    (hw : w.ok) (hws : ∀ q ∈ ws, q.ok) :
     ∃ c', (if props then columnSettingsWithProperties else columnSettings) c
         = .ok (foldColSettings ((w :: ws).map Flag.setting) none) c' ∧ c'.rest = '\n' :: rest ∧ c'.pastEnd = false := by
   obtain ⟨c1, hbr, hr1, hp1⟩ := sym_ok "[" '[' rfl c _ hn hp
@@ -166,7 +212,7 @@ theorem settings_ok (props : Bool) (c : Cur) (w : Flag) (ws : List Flag) (rest :
       cases w <;> simp [Flag.text] at hy <;> (obtain ⟨rfl, _⟩ := hy; exact ⟨by decide, by decide⟩)
     obtain ⟨q1, q2⟩ := quiet_of_next c1 y _ hN0 hyn.1 hyn.2
     exact skipNl_stay c1 q1 q2
-  obtain ⟨c2, hset, hr2, hp2⟩ := columnSetting_flag c1 w x r' hN1 hx hp1
+  obtain ⟨c2, hset, hr2, hp2⟩ := columnSetting_flag c1 w x r' hN1 hx hp1 hw
   have hq2 : skipNl c2 = .ok () c2 := by
     have hxw : isWs x = false := by rcases hx with rfl | rfl <;> decide
     have hN : Next c2 x r' := skipWs_rest_head c2 x r' hr2 hxw
@@ -180,7 +226,7 @@ theorem settings_ok (props : Bool) (c : Cur) (w : Flag) (ws : List Flag) (rest :
     fun c3 h => skipWs_rest_head c3 ']' _ h (by decide)
   cases props with
   | false =>
-    obtain ⟨c3, hm, hr3, hp3⟩ := many_flags columnSetting (fun _ _ _ h => h) ws ('\n' :: rest) (c2.rest.length + 2) c2
+    obtain ⟨c3, hm, hr3, hp3⟩ := many_flags columnSetting (fun _ _ _ h => h) ws ('\n' :: rest) hws (c2.rest.length + 2) c2
       hfuel (by rw [hr2, hrest]) hp2
     obtain ⟨c4, hcl, hr4, hp4⟩ := sym_ok "]" ']' rfl c3 _ (hN3 c3 hr3) hp3
     have hN4 : Next c4 '\n' rest := skipWs_rest_head c4 '\n' _ hr4 (by decide)
@@ -194,7 +240,7 @@ theorem settings_ok (props : Bool) (c : Cur) (w : Flag) (ws : List Flag) (rest :
     unfold columnSettings
     simp only [bind, pbind, hbr, cut, hset, hmF, hcl, hcm, pure, ppure, List.map_cons]
   | true =>
-    obtain ⟨c3, hm, hr3, hp3⟩ := many_flags columnSettingWithProperty columnSetting_wp ws ('\n' :: rest)
+    obtain ⟨c3, hm, hr3, hp3⟩ := many_flags columnSettingWithProperty columnSetting_wp ws ('\n' :: rest) hws
       (c2.rest.length + 2) c2 hfuel (by rw [hr2, hrest]) hp2
     obtain ⟨c4, hcl, hr4, hp4⟩ := sym_ok "]" ']' rfl c3 _ (hN3 c3 hr3) hp3
     have hN4 : Next c4 '\n' rest := skipWs_rest_head c4 '\n' _ hr4 (by decide)
@@ -248,7 +294,7 @@ def flagsText : List Flag → Str
 
 theorem tableColumn_settings (props : Bool) (c : Cur) (cn ty : Str) (w : Flag) (ws : List Flag) (rest : Str)
     (hc : c.rest = ' ' :: ' ' :: ' ' :: ' ' :: '"' :: (cn ++ '"' :: ' ' :: (ty ++ flagsText (w :: ws) ++ '\n' :: rest)))
-    (hp : c.pastEnd = false) (hcn : NameOK cn) (hty : TypeOK ty) :
+    (hp : c.pastEnd = false) (hcn : NameOK cn) (hty : TypeOK ty) (hw : w.ok) (hws : ∀ q ∈ ws, q.ok) :
     ∃ c', tableColumn props c = .ok (colOfSettings cn ty (foldColSettings ((w :: ws).map Flag.setting) none)) c'
       ∧ c'.rest = rest ∧ c'.pastEnd = false := by
   have hfl : ty ++ flagsText (w :: ws) ++ '\n' :: rest
@@ -281,7 +327,7 @@ theorem tableColumn_settings (props : Bool) (c : Cur) (cn ty : Str) (w : Flag) (
   have hcm : cOpt c2 = .ok none c2 := by
     unfold cOpt opt
     rw [comment_fail c2 '[' _ hN2 (by decide)]
-  obtain ⟨c3, hset, hr3, hp3⟩ := settings_ok props c2 w ws rest hN2 hp2
+  obtain ⟨c3, hset, hr3, hp3⟩ := settings_ok props c2 w ws rest hN2 hp2 hw hws
   have hs1 : opt (if props then columnSettingsWithProperties else columnSettings) c2
       = .ok (some (foldColSettings ((w :: ws).map Flag.setting) none)) c3 := by
     unfold opt; rw [hset]
@@ -292,7 +338,7 @@ theorem tableColumn_settings (props : Bool) (c : Cur) (cn ty : Str) (w : Flag) (
   simp only [bind, pbind, hb, hnm, hct, hcons, hcm, hs1, hle, pure, ppure, colOfSettings]
   rfl
 
-/-! ### the form: a column with any subset of the four flags -/
+/-! ### the form: a column with any subset of the four flags and possibly a note -/
 
 structure FCol where
   name : Str
@@ -301,84 +347,144 @@ structure FCol where
   increment : Bool := false
   unique : Bool := false
   notNull : Bool := false
+  /-- the empty text means: no note -/
+  note : Str := []
 
-/-- the flags in the order the renderer writes them -/
+/-- the settings in the order the renderer writes them -/
 def FCol.flags (s : FCol) : List Flag :=
   (if s.pk then [Flag.pk] else []) ++ (if s.increment then [Flag.increment] else [])
     ++ (if s.unique then [Flag.unique] else []) ++ (if s.notNull then [Flag.notNull] else [])
+    ++ (if s.note.isEmpty then [] else [Flag.note s.note])
 
 def FCol.str (s : FCol) : Str := '"' :: (s.name ++ '"' :: ' ' :: (s.type ++ flagsText s.flags))
 
 def FCol.bp (s : FCol) : Bp.ColBp :=
-  { name := s.name, type := s.type, unique := s.unique, notNull := s.notNull, pk := s.pk, autoinc := s.increment }
+  { name := s.name, type := s.type, unique := s.unique, notNull := s.notNull, pk := s.pk, autoinc := s.increment,
+    note := if s.note.isEmpty then none else some s.note }
 
 def FCol.col (s : FCol) : Column :=
-  { name := s.name, type := .plain s.type, unique := s.unique, notNull := s.notNull, pk := s.pk, autoinc := s.increment }
+  { name := s.name, type := .plain s.type, unique := s.unique, notNull := s.notNull, pk := s.pk, autoinc := s.increment,
+    note := s.note }
 
-def FCol.ok (s : FCol) : Prop := NameOK s.name ∧ TypeOK s.type
+/-- a quoted name, a one-word type, and a note that is one plain normalised line without a triple quote -/
+def FCol.ok (s : FCol) : Prop :=
+  NameOK s.name ∧ TypeOK s.type ∧ Plain s.note ∧ hasTriple s.note = false ∧ norm s.note = s.note
+
+theorem FCol.flags_ok (s : FCol) (hok : s.ok) : ∀ w ∈ s.flags, w.ok := by
+  intro w hw
+  simp only [FCol.flags, List.mem_append] at hw
+  rcases hw with (((h | h) | h) | h) | h
+  · split at h <;> simp at h; subst h; trivial
+  · split at h <;> simp at h; subst h; trivial
+  · split at h <;> simp at h; subst h; trivial
+  · split at h <;> simp at h; subst h; trivial
+  · split at h <;> simp at h; subst h; exact ⟨hok.2.2.1, hok.2.2.2.1⟩
 
 theorem FCol.settings_bp (s : FCol) (w : Flag) (ws : List Flag) (h : s.flags = w :: ws) :
     colOfSettings s.name s.type (foldColSettings ((w :: ws).map Flag.setting) none) = s.bp := by
   rw [← h]
-  obtain ⟨n, t, a, b, c, d⟩ := s
-  cases a <;> cases b <;> cases c <;> cases d <;> first | rfl | (exfalso; simp [FCol.flags] at h)
+  obtain ⟨n, t, a, b, c, d, e⟩ := s
+  cases e <;> cases a <;> cases b <;> cases c <;> cases d <;> first | rfl | (exfalso; simp [FCol.flags] at h)
 
 theorem FCol.plain_bp (s : FCol) (h : s.flags = []) : plainCol s.name s.type = s.bp := by
-  obtain ⟨n, t, a, b, c, d⟩ := s
-  cases a <;> cases b <;> cases c <;> cases d <;> first | rfl | (exfalso; simp [FCol.flags] at h)
+  obtain ⟨n, t, a, b, c, d, e⟩ := s
+  cases e <;> cases a <;> cases b <;> cases c <;> cases d <;> first | rfl | (exfalso; simp [FCol.flags] at h)
 
-theorem flag_text_line (w : Flag) : LineOK w.text ∧ ∀ ch ∈ w.text, ch ≠ '\t' := by
-  cases w <;> exact ⟨by intro c hc; revert c; decide, by intro c hc; revert c; decide⟩
+theorem flag_text_line (w : Flag) (hw : w.ok) : LineOK w.text ∧ ∀ ch ∈ w.text, ch ≠ '\t' := by
+  cases w with
+  | note t =>
+    obtain ⟨ht, _⟩ := hw
+    have e : (Flag.note t).text = ['n', 'o', 't', 'e', ':', ' ', '\''] ++ prepareTextForDbml t ++ ['\''] := by
+      simp [Flag.text]
+    constructor
+    · intro c hc
+      rw [e] at hc; simp only [List.mem_append] at hc
+      rcases hc with (h | h) | h
+      · exact (by decide : ∀ c ∈ ['n', 'o', 't', 'e', ':', ' ', '\''], isLineBreak c = false) c h
+      · rcases prepare_mem _ c h with h' | rfl
+        · exact (ht c h').1
+        · decide
+      · exact (by decide : ∀ c ∈ ['\''], isLineBreak c = false) c h
+    · intro c hc
+      rw [e] at hc; simp only [List.mem_append] at hc
+      rcases hc with (h | h) | h
+      · exact (by decide : ∀ c ∈ ['n', 'o', 't', 'e', ':', ' ', '\''], c ≠ '\t') c h
+      · rcases prepare_mem _ c h with h' | rfl
+        · exact (ht c h').2
+        · decide
+      · exact (by decide : ∀ c ∈ ['\''], c ≠ '\t') c h
+  | pk => exact ⟨by intro c hc; revert c; decide, by intro c hc; revert c; decide⟩
+  | increment => exact ⟨by intro c hc; revert c; decide, by intro c hc; revert c; decide⟩
+  | unique => exact ⟨by intro c hc; revert c; decide, by intro c hc; revert c; decide⟩
+  | notNull => exact ⟨by intro c hc; revert c; decide, by intro c hc; revert c; decide⟩
 
-theorem moreFlags_line (ws : List Flag) : LineOK (moreFlags ws) ∧ ∀ ch ∈ moreFlags ws, ch ≠ '\t' := by
+theorem moreFlags_line (ws : List Flag) (hws : ∀ w ∈ ws, w.ok) :
+    LineOK (moreFlags ws) ∧ ∀ ch ∈ moreFlags ws, ch ≠ '\t' := by
   induction ws with
   | nil => exact ⟨by intro c hc; simp [moreFlags] at hc, by intro c hc; simp [moreFlags] at hc⟩
   | cons w r ih =>
+    have ih := ih (fun q hq => hws q (by simp [hq]))
+    have hw := hws w (by simp)
     have e : moreFlags (w :: r) = [',', ' '] ++ w.text ++ moreFlags r := by simp [moreFlags]
     constructor
     · intro c hc
       rw [e] at hc; simp only [List.mem_append] at hc
       rcases hc with (h | h) | h
       · exact (by decide : ∀ c ∈ [',', ' '], isLineBreak c = false) c h
-      · exact (flag_text_line w).1 c h
+      · exact (flag_text_line w hw).1 c h
       · exact ih.1 c h
     · intro c hc
       rw [e] at hc; simp only [List.mem_append] at hc
       rcases hc with (h | h) | h
       · exact (by decide : ∀ c ∈ [',', ' '], c ≠ '\t') c h
-      · exact (flag_text_line w).2 c h
+      · exact (flag_text_line w hw).2 c h
       · exact ih.2 c h
 
-theorem flagsText_line (ws : List Flag) : LineOK (flagsText ws) ∧ ∀ ch ∈ flagsText ws, ch ≠ '\t' := by
+theorem flagsText_line (ws : List Flag) (hws : ∀ w ∈ ws, w.ok) :
+    LineOK (flagsText ws) ∧ ∀ ch ∈ flagsText ws, ch ≠ '\t' := by
   cases ws with
   | nil => exact ⟨by intro c hc; simp [flagsText] at hc, by intro c hc; simp [flagsText] at hc⟩
   | cons w r =>
+    have hw := hws w (by simp)
+    have hr := moreFlags_line r (fun q hq => hws q (by simp [hq]))
     have e : flagsText (w :: r) = [' ', '['] ++ w.text ++ moreFlags r ++ [']'] := by simp [flagsText]
     constructor
     · intro c hc
       rw [e] at hc; simp only [List.mem_append] at hc
       rcases hc with ((h | h) | h) | h
       · exact (by decide : ∀ c ∈ [' ', '['], isLineBreak c = false) c h
-      · exact (flag_text_line w).1 c h
-      · exact (moreFlags_line r).1 c h
+      · exact (flag_text_line w hw).1 c h
+      · exact hr.1 c h
       · exact (by decide : ∀ c ∈ [']'], isLineBreak c = false) c h
     · intro c hc
       rw [e] at hc; simp only [List.mem_append] at hc
       rcases hc with ((h | h) | h) | h
       · exact (by decide : ∀ c ∈ [' ', '['], c ≠ '\t') c h
-      · exact (flag_text_line w).2 c h
-      · exact (moreFlags_line r).2 c h
+      · exact (flag_text_line w hw).2 c h
+      · exact hr.2 c h
       · exact (by decide : ∀ c ∈ [']'], c ≠ '\t') c h
 
 theorem FCol.str_split (s : FCol) : s.str = colStr (s.name, s.type) ++ flagsText s.flags := by
   simp [FCol.str, colStr]
 
-theorem FCol.render (ap : Bool) (ts : List Table) (ti ci : Nat) (s : FCol) :
+theorem containsChar_plain (t : Str) (ht : Plain t) : containsChar '\n' t = false := by
+  unfold containsChar
+  rw [List.any_eq_false]
+  intro c hc
+  have := (ht c hc).1
+  intro h
+  simp at h
+  subst h
+  simp [isLineBreak] at this
+
+theorem FCol.render (ap : Bool) (ts : List Table) (ti ci : Nat) (s : FCol) (hok : s.ok) :
     Dbml.renderColumn { tables := ts, allowProps := ap } ti ci s.col = .ok s.str := by
-  obtain ⟨n, t, a, b, c, d⟩ := s
-  cases a <;> cases b <;> cases c <;> cases d <;>
+  have hnl := containsChar_plain s.note hok.2.2.1
+  obtain ⟨n, t, a, b, c, d, e⟩ := s
+  cases e <;> cases a <;> cases b <;> cases c <;> cases d <;>
     simp [Dbml.renderColumn, Sql.typeText, Dbml.inlineRefsOfColumn, FCol.col, FCol.str, FCol.flags, flagsText, moreFlags,
-      Flag.text, Dbml.optComment, joinWith, bind, Except.bind, pure, Except.pure, lit]
+      Flag.text, Dbml.optComment, joinWith, bind, Except.bind, pure, Except.pure, lit, noteOptionToDbml] <;>
+    simp [hnl] at *
 
 def flagForm : ColForm FCol where
   str := FCol.str
@@ -390,11 +496,14 @@ def flagForm : ColForm FCol where
     intro props c s rest hc hp hok
     cases hf : s.flags with
     | nil =>
-      have := tableColumn_ok props c s.name s.type rest (by rw [hc]; simp [FCol.str, hf, flagsText, colLine]) hp hok.1 hok.2
+      have := tableColumn_ok props c s.name s.type rest (by rw [hc]; simp [FCol.str, hf, flagsText, colLine]) hp hok.1 hok.2.1
       rw [FCol.plain_bp s hf] at this
       exact this
     | cons w ws =>
-      have := tableColumn_settings props c s.name s.type w ws rest (by rw [hc]; simp [FCol.str, hf]) hp hok.1 hok.2
+      have hall := FCol.flags_ok s hok
+      rw [hf] at hall
+      have := tableColumn_settings props c s.name s.type w ws rest (by rw [hc]; simp [FCol.str, hf]) hp hok.1 hok.2.1
+        (hall w (by simp)) (fun q hq => hall q (by simp [hq]))
       rw [FCol.settings_bp s w ws hf] at this
       exact this
   noTab := by
@@ -408,46 +517,56 @@ def flagForm : ColForm FCol where
       · exact (by decide : ∀ c ∈ ['"'], c ≠ '\t') ch h
       · exact (hok.1 ch h).2.2.2
       · exact (by decide : ∀ c ∈ ['"', ' '], c ≠ '\t') ch h
-      · exact typeOK_no_tab s.type hok.2 ch h
-    · exact (flagsText_line s.flags).2 ch h
+      · exact typeOK_no_tab s.type hok.2.1 ch h
+    · exact (flagsText_line s.flags (FCol.flags_ok s hok)).2 ch h
   lineOK := by
     intro s hok ch hch
     rw [FCol.str_split] at hch
     simp only [List.mem_append] at hch
     rcases hch with h | h
-    · exact colStr_ok (s.name, s.type) hok.1 hok.2 ch h
-    · exact (flagsText_line s.flags).1 ch h
+    · exact colStr_ok (s.name, s.type) hok.1 hok.2.1 ch h
+    · exact (flagsText_line s.flags (FCol.flags_ok s hok)).1 ch h
   norefs := fun _ => rfl
   build := by
-    intro s
-    simp [buildColumn, buildDefault, resolveType, resolveTypePure, buildNote, FCol.bp, FCol.col,
-      bind, Except.bind, pure, Except.pure]
-  render := fun ap ts ti ci s _ => FCol.render ap ts ti ci s
+    intro s hok
+    have hn := hok.2.2.2.2
+    obtain ⟨n, t, a, b, c, d, e⟩ := s
+    cases e with
+    | nil =>
+      simp [buildColumn, buildDefault, resolveType, resolveTypePure, buildNote, FCol.bp, FCol.col,
+        bind, Except.bind, pure, Except.pure]
+    | cons x r =>
+      simp only at hn
+      simp [buildColumn, buildDefault, resolveType, resolveTypePure, buildNote, FCol.bp, FCol.col,
+        bind, Except.bind, pure, Except.pure, hn]
+  render := fun ap ts ti ci s hok => FCol.render ap ts ti ci s hok
 
 /-- **C02 for a table whose columns carry settings, end to end**: a database holding one table in schema public
-    with any positive number of columns, each with a quoted name, a one-word type and ANY SUBSET of the settings
-    `pk`, `increment`, `unique`, `not null`, is rendered to DBML and parsed back to exactly the same database,
-    with the properties switch on or off.  The settings travel through `column_settings` (or
-    `column_settings_with_properties`), `parse_column_settings`, `ColumnBlueprint.build` and `render_column`. -/
+    with any positive number of columns, each with a quoted name, a one-word type, ANY SUBSET of the settings
+    `pk`, `increment`, `unique`, `not null` and possibly a one-line note, is rendered to DBML and parsed back to
+    exactly the same database, with the properties switch on or off.  The settings travel through
+    `column_settings` (or `column_settings_with_properties`), `parse_column_settings`, `ColumnBlueprint.build`
+    (where the note is normalised) and `render_column`. -/
 theorem flags_table_roundtrip_partial (ap : Bool) (tn : Str) (cs : List FCol)
-    (htn : NameOK tn) (hcs : ∀ s ∈ cs, NameOK s.name ∧ TypeOK s.type) (hne : cs ≠ []) :
+    (htn : NameOK tn) (hcs : ∀ s ∈ cs, s.ok) (hne : cs ≠ []) :
     ∃ text, Dbml.renderDb { tables := [{ name := tn, columns := cs.map FCol.col }], allowProps := ap } = .ok text
       ∧ Build.parse ap text
           = .ok { tables := [{ name := tn, columns := cs.map FCol.col }], allowProps := ap } :=
   form_roundtrip flagForm ap tn cs htn hcs hne
 
-/-- non-vacuity: a primary key with auto-increment, a unique not-null column, a bare column -/
+/-- non-vacuity: a primary key with auto-increment, a unique not-null column with a note, a bare column -/
 example : ∀ s ∈ [({ name := lit "id", type := lit "int", pk := true, increment := true } : FCol),
-      { name := lit "e mail", type := lit "varchar", unique := true, notNull := true },
-      { name := lit "age", type := lit "int" }], NameOK s.name ∧ TypeOK s.type := by
+      { name := lit "e mail", type := lit "varchar", unique := true, notNull := true, note := lit "it's the login" },
+      { name := lit "age", type := lit "int" }], s.ok := by
   intro s hs
   simp at hs
-  rcases hs with rfl | rfl | rfl <;> refine ⟨fun c hc => ?_, by decide, by decide⟩ <;> (revert c; decide)
+  rcases hs with rfl | rfl | rfl <;>
+    refine ⟨fun c hc => ?_, ⟨by decide, by decide⟩, fun c hc => ?_, by decide, by decide⟩ <;> (revert c; decide)
 
 /-- the text of such a table, as the renderer model writes it (a test of the statement on one literal) -/
 example : flagForm.tableText (lit "t") [{ name := lit "id", type := lit "int", pk := true, increment := true },
-      { name := lit "m", type := lit "text", unique := true, notNull := true }]
-    = lit "Table \"t\" {\n    \"id\" int [pk, increment]\n    \"m\" text [unique, not null]\n}" := by decide
+      { name := lit "m", type := lit "text", unique := true, notNull := true, note := lit "it's" }]
+    = lit "Table \"t\" {\n    \"id\" int [pk, increment]\n    \"m\" text [unique, not null, note: 'it\\'s']\n}" := by decide
 
 end C02
 end PyDBML
